@@ -490,4 +490,57 @@ EXTRA = [
                     self.cache.remove_tile(tile)
                     return []
                 if source.authorize_stale""", 'C12.d|C13.c'),
+    # ---------------------------------------------------------------- C15
+    M('M-C15a-revert-D4', 'mapproxy/util/async_.py', """                except Exception:
+                    if raise_exceptions:
+                        raise
+                    result = sys.exc_info()
+                yield result""", """                except Exception:
+                    result = sys.exc_info()
+                yield result""", 'C15.a', 'revert of fix D4'),
+    E('E-C15a-else-raise', 'mapproxy/util/async_.py', """                except Exception:
+                    if raise_exceptions:
+                        raise
+                    result = sys.exc_info()
+                yield result""", """                except Exception:
+                    if not raise_exceptions:
+                        result = sys.exc_info()
+                    else:
+                        raise
+                yield result""", 'if not mode: value else: raise'),
+    M('M-C15a-single-call-swallow', 'mapproxy/util/async_.py', """        except Exception:
+            if not use_result_objects:
+                raise
+            result = sys.exc_info()
+        return _result_iter([result], use_result_objects)""", """        except Exception:
+            result = sys.exc_info()
+        return _result_iter([result], use_result_objects)""", 'C15.a|C15.d'),
+    M('M-C15c-results-wrong-key', 'mapproxy/util/async_.py', "                results[i] = value", "                results[next_result] = value", 'C15.c'),
+    M('M-C15c-worker-index-zero', 'mapproxy/util/async_.py', "self.result_queue.put((exec_id, result))", "self.result_queue.put((0, result))", 'C15.c'),
+    M('M-C15c-no-advance', 'mapproxy/util/async_.py', """                while next_result in results:
+                    yield results.pop(next_result)
+                    next_result += 1""", """                while next_result in results:
+                    yield results.pop(next_result)
+                    next_result += 2""", 'C15.c'),
+    E('E-C15c-rename-exec-id', 'mapproxy/util/async_.py', """                exec_id, func, args = task
+                try:
+                    result = func(*args)
+                except Exception:
+                    result = sys.exc_info()
+                self.result_queue.put((exec_id, result))""", """                idx, func, args = task
+                try:
+                    result = func(*args)
+                except Exception:
+                    result = sys.exc_info()
+                self.result_queue.put((idx, result))""", 'renamed local'),
+    M('M-C15d-swallow-in-result-iter', 'mapproxy/util/async_.py', """                exception = result
+                result = None""", """                result = None""", 'C15.d'),
+    M('M-C15d-fetch-no-raise', 'mapproxy/util/async_.py', """                exc_class, exc, tb = task_result[1]
+                raise exc.with_traceback(tb)""", """                exc_class, exc, tb = task_result[1]
+                continue""", 'C15.d'),
+    E('E-C15d-shutdown-not-forced', 'mapproxy/util/async_.py', """                self.shutdown(force=True)
+                exc_class, exc, tb = task_result[1]""", """                self.shutdown(force=False)
+                exc_class, exc, tb = task_result[1]""", 'force flag is not part of the rule'),
+    M('M-C15e-sorted-results', 'mapproxy/cache/tile.py', "for layer in async_.imap(get_map_from_source, self.sources):",
+      "for layer in sorted(async_.imap(get_map_from_source, self.sources), key=id):", 'C15.e'),
 ]
